@@ -240,6 +240,26 @@ unencapsulated while pool 1 stays (no restart): Felix stops programming pool 0's
 example : let s := (Dyn.setClass felixTable guards felixTable.dflt (Dyn.start felixTable guards felixTable.dflt [.ipip, .ipip, .noEncap]) 0 .noEncap)
     s.2 = false ∧ s.1.programs 0 = false ∧ s.1.programs 1 = false ∧ s.1.programs 2 = true := by decide
 
+/-! ## ownership does not depend on `disabled` -/
+
+/-- Two pool lists that differ only in their `disabled` flags give the same Felix state (same
+managers started, same destinations programmed) — and BIRD's verdict is a function of the modes
+alone.  DEFINITIONAL in the model (it classifies a pool by its two modes only); what it rests on is
+the translator tie that `EncapsulationCalculator.updatePool` takes exactly (cidr, ipipEnabled,
+vxlanEnabled) and that confd's `processIPPool`/`programsPool` bodies are the modelled ones, plus
+the correspondence run and the exactly-one-owner oracle over histories with disabled pools that
+still have blocks. -/
+theorem ownership_ignores_disabled (v : Str) (ps qs : List PoolSpec)
+    (h : ps.map (·.cls) = qs.map (·.cls)) :
+    Dyn.startSpecs felixTable guards v ps = Dyn.startSpecs felixTable guards v qs := by
+  unfold Dyn.startSpecs; rw [h]
+
+/-- Felix owns the no-encap routes (Felix Enabled / BGP Disabled) and the only no-encap pool is
+disabled: Felix still programs its blocks, BIRD still rejects them — exactly one owner. -/
+example : let s := Dyn.startSpecs felixTable guards [69, 110, 97, 98, 108, 101, 100] [⟨.noEncap, true⟩, ⟨.ipip, false⟩]
+    s.programs 0 = true ∧ s.programs 1 = true ∧
+    birdKernelV4 true (bgpPolicy bgpTable (some [68, 105, 115, 97, 98, 108, 101, 100])) .never .never = false := by decide
+
 /-! ## confd side: the effective policy is a function of the CURRENT resource -/
 
 /-- After any history of syncer events for BGPConfiguration `default`, the cached resource is that
